@@ -623,11 +623,25 @@ func MakeCircuitIDKey(circuitID []byte) CircuitIDKey {
 	return key
 }
 
+// checkCircuitIDKeyLen rejects circuit-IDs that do not fit the fixed-size key.
+// Truncating them would make every circuit-ID with the same first 32 bytes
+// share one map entry; the XDP program never looks up circuit-IDs longer than
+// CIRCUIT_ID_KEY_LEN, so such subscribers are served by the slow path.
+func checkCircuitIDKeyLen(circuitID []byte) error {
+	if len(circuitID) > CircuitIDKeyLen {
+		return fmt.Errorf("circuit-id of %d bytes exceeds the %d-byte fast-path key", len(circuitID), CircuitIDKeyLen)
+	}
+	return nil
+}
+
 // AddCircuitIDSubscriber adds a circuit-ID to pool_assignment mapping
 // This enables fast-path lookup by circuit-ID (Issue #56)
 func (l *Loader) AddCircuitIDSubscriber(circuitID []byte, assignment *PoolAssignment) error {
 	if l.circuitIDSubscribers == nil {
 		return fmt.Errorf("circuit_id_subscribers map not loaded")
+	}
+	if err := checkCircuitIDKeyLen(circuitID); err != nil {
+		return err
 	}
 	key := MakeCircuitIDKey(circuitID)
 	return l.circuitIDSubscribers.Put(&key, assignment)
@@ -638,6 +652,9 @@ func (l *Loader) RemoveCircuitIDSubscriber(circuitID []byte) error {
 	if l.circuitIDSubscribers == nil {
 		return fmt.Errorf("circuit_id_subscribers map not loaded")
 	}
+	if err := checkCircuitIDKeyLen(circuitID); err != nil {
+		return err
+	}
 	key := MakeCircuitIDKey(circuitID)
 	return l.circuitIDSubscribers.Delete(&key)
 }
@@ -646,6 +663,9 @@ func (l *Loader) RemoveCircuitIDSubscriber(circuitID []byte) error {
 func (l *Loader) GetCircuitIDSubscriber(circuitID []byte) (*PoolAssignment, error) {
 	if l.circuitIDSubscribers == nil {
 		return nil, fmt.Errorf("circuit_id_subscribers map not loaded")
+	}
+	if err := checkCircuitIDKeyLen(circuitID); err != nil {
+		return nil, err
 	}
 	key := MakeCircuitIDKey(circuitID)
 	var assignment PoolAssignment
